@@ -246,6 +246,17 @@ class SetList(Sort):
         return ref
 
 
+class SetOf(Sort):
+    """one (immutable) set of elements of a z3 sort"""
+
+    def __init__(self, elem):
+        self.elem = elem
+
+    def make(self, ex, st, name):
+        from .values import VSetVal
+        return VSetVal(z3.Const(fresh_name(name), z3.SetSort(self.elem)), self.elem)
+
+
 class MapList(Sort):
     def make(self, ex, st, name):
         from .values import MapListContent
